@@ -18,7 +18,7 @@ import (
 )
 
 func init() {
-	stats.Rule("C13", "rapid cases: a sketch (both variants, all five store kinds, three mappings) in a reachable state built by a short generated history (possibly empty), then one call: Add/AddWithCount with value in {NaN, +-Inf, +-MaxFloat64, neighbours of +-MaxIndexableValue, +-MaxIndexableValue, -0, subnormals, in-range finite} x weight in {negative incl. -2^-1074 and -Inf, -0, 0, positive, +Inf (acceptance only, on a copy)}; quantile queries with q in {NaN, -2^-1074, nextafter(1,2), -1, 2, +-Inf, -0, 0, 1, random} single and batch, empty and non-empty; MergeWith a sketch whose mapping differs in kind or by >= 0.1% in accuracy; Reweight by {0, -0, negative, -Inf}; constructors with accuracies/bases inside and outside their domains; NewBin; NewSummaryStatisticsFromData; NewDDSketchWithExactSummaryStatisticsFromData. Oracle: the documented error value (or any non-nil error where none is exported) for invalid input, nil for valid input, and after a refusal the full observation of the sketch (and of the merge argument) is identical to the one taken before. Non-trivial: a refusal on a non-empty sketch or an acceptance at a boundary value; distinct by hash of the printed case.")
+	stats.Rule("C13", "rapid cases: a sketch (both variants, all five store kinds, three mappings) in a reachable state built by a short generated history (possibly empty), then one call: Add/AddWithCount with value in {NaN, +-Inf, +-MaxFloat64, neighbours of +-MaxIndexableValue, +-MaxIndexableValue, -0, subnormals, in-range finite} x weight in {negative incl. -2^-1074 and -Inf, -0, 0, positive, +Inf (acceptance only, on a copy)}; quantile queries with q in {NaN, -2^-1074, nextafter(1,2), -1, 2, +-Inf, -0, 0, 1, random} single and batch, empty and non-empty; MergeWith a sketch whose mapping differs in kind, by >= 0.1% in accuracy, or only in its index offset; Reweight by {0, -0, negative, -Inf}; constructors with accuracies/bases inside and outside their domains; NewBin; NewSummaryStatisticsFromData; NewDDSketchWithExactSummaryStatisticsFromData. Oracle: the documented error value (or any non-nil error where none is exported) for invalid input, nil for valid input, and after a refusal the full observation of the sketch (and of the merge argument) is identical to the one taken before. Non-trivial: a refusal on a non-empty sketch or an acceptance at a boundary value; distinct by hash of the printed case.")
 }
 
 var c13Kinds = []string{"add", "add", "add", "merge", "clear", "reweight", "encdec", "copy"}
@@ -162,12 +162,22 @@ func TestC13(t *testing.T) {
 			// argument with another mapping: other kind, or same kind and accuracy >= 0.1% apart
 			ospec := c.spec
 			alpha := c.m.RelativeAccuracy()
-			if rapid.Bool().Draw(t, "otherkind") {
+			switch mm := rapid.IntRange(0, 2).Draw(t, "mismatchclass"); {
+			case mm == 0:
 				for ospec.Kind == c.spec.Kind {
 					ospec.Kind = rapid.SampledFrom(gen.MapKinds).Draw(t, "okind")
 				}
 				cl.label("mismatch:kind")
-			} else {
+			case mm == 1:
+				// same kind and base, another index offset (one of the two possibly exactly 0)
+				g0, o0 := gen.GammaOf(c.m)
+				o2 := o0 + rapid.SampledFrom([]float64{1, -1, 0.5, -7.25, 1e-3, 64}).Draw(t, "doffset")
+				if o0 != 0 && rapid.Bool().Draw(t, "zerooffset") {
+					o2 = 0
+				}
+				ospec = gen.MapSpec{Kind: gen.KindOf(c.m), Gamma: g0, Offset: o2}
+				cl.label("mismatch:offset")
+			default:
 				delta := rapid.SampledFrom([]float64{1e-3, -1e-3, 0.01, 0.3, -0.3}).Draw(t, "delta")
 				a2 := alpha * (1 + delta)
 				if a2 >= 1 {
